@@ -7,7 +7,7 @@ import subprocess
 import sys
 import time
 
-from .. import alphabet, common, evidence, explorer, findings, refmodel, world as W
+from .. import alphabet, common, evidence, explorer, findings, ladder, refmodel, world as W
 
 
 def viol(oracle, signature, observed=None, expected=None, detail="", probe=None, kind="transition"):
@@ -75,7 +75,30 @@ class E1Check:
 
     # ---- to be specialised ---------------------------------------------------------------
     def make_alphabet(self, seed):
-        return alphabet.Alphabet(seed)
+        return ladder.install(alphabet.Alphabet(seed))
+
+    def ladder_sizes(self):
+        return ladder.LADDER_QUICK if self.tier == "quick" else ladder.LADDER_THOROUGH
+
+    def ladder_vocab(self, n):
+        """A small query vocabulary over the keys of the generated ladder points."""
+        A = self.alpha
+        base = A.t[0]
+        import datetime as _dt
+
+        tl = base + _dt.timedelta(days=1)
+        return [
+            ("cmp", "tags", ("i",), "==", "5"), ("cmp", "tags", ("i",), "==", str(n - 1)), ("cmp", "tags", ("a",), "==", A.x),
+            ("cmp", "fields", ("w",), ">=", n // 2), ("cmp", "fields", ("w",), "<", 12), ("cmp", "fields", ("v",), ">=", 3),
+            ("cmp", "fields", ("v",), "==", 1), ("exists", "fields", ("v",)), ("not", ("exists", "fields", ("v",))),
+            ("cmp", "measurement", (), "==", "big"), ("cmp", "measurement", (), "==", "n"), ("cmp", "measurement", (), "==", "h"),
+            ("cmp", "time", (), "<", tl + _dt.timedelta(seconds=10)), ("cmp", "time", (), ">=", tl + _dt.timedelta(seconds=n // 2)),
+            ("cmp", "time", (), "==", tl + _dt.timedelta(seconds=n - 1)), ("regex", "search", "tags", ("q",), "line", 0),
+            ("and", ("cmp", "fields", ("v",), ">=", 3), ("cmp", "measurement", (), "==", "big")),
+            ("or", ("cmp", "tags", ("i",), "==", "1"), ("cmp", "fields", ("w",), "==", n - 2)),
+            ("cmp", "fields", ("w", ("map", "plus_one")), "==", n), ("test", "fields", ("w",), "is_even", ()),
+            ("noop", "tags"), ("cmp", "tags", ("i",), "==", "h7"),
+        ]
 
     def alpha_args(self):
         return (self.seed,)
@@ -99,8 +122,11 @@ class E1Check:
     def ops(self, cfg):
         k = cfg["name"]
         if k not in self._ops_cache:
-            self._ops_cache[k] = self.op_list(cfg)
+            self._ops_cache[k] = self.ladder_op_list(cfg) if cfg.get("ladder") else self.op_list(cfg)
         return self._ops_cache[k]
+
+    def ladder_op_list(self, cfg):
+        return ladder.ops(self.alpha, cfg)
 
     def enabled(self, op, contents, cfg, history):
         n = W.op_inserts(op)
